@@ -786,9 +786,35 @@ func linWalk(paths []linPath, list []ast.Stmt, visit func(p linPath, st ast.Stmt
 			for _, p := range paths {
 				visit(p, st)
 			}
+			// a statement that ends the program ends the paths
+			if es, ok := st.(*ast.ExprStmt); ok && len(paths) > 0 {
+				if call, ok := es.X.(*ast.CallExpr); ok && linEndsProgram(paths[0].env.info, call) {
+					return nil
+				}
+			}
 		}
 	}
 	return paths
+}
+
+// linEndsProgram: panic(…), os.Exit(…), (log|logrus|testing).Fatal*/Panic*.
+func linEndsProgram(info *types.Info, call *ast.CallExpr) bool {
+	if id, ok := call.Fun.(*ast.Ident); ok && id.Name == "panic" {
+		if _, isBuiltin := info.Uses[id].(*types.Builtin); isBuiltin {
+			return true
+		}
+	}
+	f := callee(info, call)
+	if f == nil || f.Pkg() == nil {
+		return false
+	}
+	if f.Pkg().Path() == "os" && f.Name() == "Exit" {
+		return true
+	}
+	if strings.HasSuffix(f.Pkg().Path(), "logrus") || f.Pkg().Path() == "log" {
+		return strings.HasPrefix(f.Name(), "Fatal") || strings.HasPrefix(f.Name(), "Panic")
+	}
+	return false
 }
 
 // known: the constraints of the path together with the facts attached to its atoms (remainders) and the
